@@ -7,13 +7,16 @@ package main
 
 //@ globalinv Exists: Exists != nil
 
-// Storage.WriteState (a bolt transaction): trusted; it touches nothing in
-// memory. Its result is logged so that callers can relate their own effect on
-// the in-memory crew to the success of the write.
+// Storage.WriteState: success is reported only when a bolt transaction ran
+// and reported success (a Service without storage - nil *Storage - accepts
+// every write: "run without persistence"). It touches nothing in memory. Its
+// result is logged so that callers can relate their own effect on the
+// in-memory crew to the success of the write.
 //@ func (*Storage).WriteState returns err
-//@   trusted
 //@   logged
 //@   modifies nothing
+//@   ensures[C16] written: s != nil && len(mss) > 0 && err == nil ==> ncalls("extern:(*go.etcd.io/bbolt.DB).Update") == old(ncalls("extern:(*go.etcd.io/bbolt.DB).Update")) + 1 && lastret("extern:(*go.etcd.io/bbolt.DB).Update", err) == nil
+//@   ensures[C16] failed: s != nil && len(mss) > 0 && ncalls("extern:(*go.etcd.io/bbolt.DB).Update") != old(ncalls("extern:(*go.etcd.io/bbolt.DB).Update")) ==> err == lastret("extern:(*go.etcd.io/bbolt.DB).Update", err)
 
 // AddMachine: the machine is in memory afterwards iff it was there before or the write succeeded.
 //@ func (*Service).AddMachine returns err
